@@ -23,6 +23,13 @@ CHECKS = {
          "README, the router and the platform mimetypes database, junk) per configuration check is_supported_file <=> get_extractor, exact error type, documented extractor, alias==base, "
          "case/stem/directory/MIME invariance; read_file dispatch is checked with spies on real temp files.",
          "The reference table is hand-transcribed from the README; MIME fallback outcomes for undocumented extensions are only checked for equivalence of the two entry points.", "DESIGN.md §4 C07"),
+ "C08": ("exploration", "Hypothesis model generation of plain/encrypted pairs per container mechanism with the harness' own writers; fresh-process differential for empty-password PDFs",
+         "Thousands of generated JSON models per run are rendered to OLE2-wrapped OOXML, ODF manifests (3 namespace spellings, any member subset), BIFF8 (FILEPASS at every globals position), DOC FIB flags, "
+         "PPT header token with/without EncryptedSummary, forged ZIP flag bits/methods, 7z AES coders (file folders, encoded header, both coder orders), EPUB encryption.xml/rights.xml, and PDFs of all five "
+         "standard-security-handler algorithms with empty/non-empty passwords (written and read in fresh forks). Encrypted => ExtractionFileEncryptedError with zero results via extractor, read_file and CLI; "
+         "plain (with look-alike names/bytes) => never; empty-password PDF == original. All 81 fixtures and 19 cross-routed fixtures enumerated.",
+         "Marker documents: payload behind the marker is pseudo-random or clear, so only detection is tested, not real decryption failure modes; real ciphertext only for PDFs (pypdf writer + reference AES) "
+         "and the 11 fixtures. Undefined cases (\\x06DataSpaces only, font-obfuscation-only EPUB) are not judged.", "DESIGN.md §4 C08"),
  "C11": ("exploration", "exhaustive boundary lattice + Hypothesis vectors against an exact-rational reference predicate; forged real ZIP packages with an open/validate event monitor",
          "validate_zipfile is compared with an independently written reference on the complete single-clause boundary lattice and on tens of thousands of generated (entries, limits) vectors built "
          "around the thresholds; 12 real package kinds get extra members with forged central-directory sizes on either side of each DEFAULT limit (incl. 50 000/50 001 entries) and must be rejected "
